@@ -166,4 +166,24 @@ impl Prop for C17 {
         }
         Ok(Input { stream: kv.get_b("stream")?, cap, use_reset: kv.get_u("use_reset")? != 0, faults: faults_from_kv(kv)?, poll_next: kv.get_u("poll_next")? != 0 })
     }
+
+    fn exhaustive_desc(tier: Tier) -> String {
+        let l = tier.pick(5, 6);
+        format!("all token sequences of length 1..={} over the 13-token alphabet of C02 ({} streams), alternating finalize / reset, capacities 8 and 64, one Other fault at a position derived from the index", l, small_seq_total(l))
+    }
+
+    fn exhaustive(tier: Tier, shard: usize, nshards: usize, f: &mut dyn FnMut(&Input) -> bool) {
+        let l = tier.pick(5, 6);
+        let alpha = small_alphabet();
+        let total = small_seq_total(l);
+        let mut idx = shard as u64;
+        while idx < total {
+            let stream = small_seq_bytes(&alpha, l, idx);
+            let faults = if idx % 3 == 0 { vec![((idx as usize / 3) % (stream.len() + 1), Step::Other(0))] } else { vec![] };
+            if !f(&Input { stream, cap: if idx % 2 == 0 { 8 } else { 64 }, use_reset: idx % 4 < 2, faults, poll_next: idx % 8 < 4 }) {
+                return;
+            }
+            idx += nshards as u64;
+        }
+    }
 }
